@@ -531,6 +531,9 @@ func freePort() int {
 	return p
 }
 
+// FreePort is freePort for harnesses that wire the server themselves.
+func FreePort() int { return freePort() }
+
 var startMu sync.Mutex
 
 func Start(o Opts) (*Stack, error) {
